@@ -157,3 +157,29 @@ func (k *Key) PublicEqual(pub crypto.PublicKey) bool {
 	}
 	return false
 }
+
+// MintIssuedBy returns a certificate for k that is issued (signed) by the CA certificate ca rather than self-signed.
+func MintIssuedBy(k *Key, cn string, ca *Cert, nb, na time.Time, serial int64) *Cert {
+	id := fmt.Sprintf("%s/%s/%d/%d/%d/by-%s-%s", k.Name, cn, nb.Unix(), na.Unix(), serial, ca.Key.Name, ca.X509.SerialNumber)
+	certMu.Lock()
+	if c, ok := certCache[id]; ok {
+		certMu.Unlock()
+		return c
+	}
+	certMu.Unlock()
+	tmpl := &x509.Certificate{SerialNumber: big.NewInt(serial), Subject: pkix.Name{CommonName: cn}, NotBefore: nb, NotAfter: na,
+		KeyUsage: x509.KeyUsageDigitalSignature | x509.KeyUsageKeyEncipherment, BasicConstraintsValid: true}
+	der, err := x509.CreateCertificate(rand.Reader, tmpl, ca.X509, k.Signer.Public(), ca.Key.Signer)
+	if err != nil {
+		panic(err)
+	}
+	xc, err := x509.ParseCertificate(der)
+	if err != nil {
+		panic(err)
+	}
+	c := &Cert{Key: k, DER: der, X509: xc}
+	certMu.Lock()
+	certCache[id] = c
+	certMu.Unlock()
+	return c
+}
